@@ -227,3 +227,46 @@ class ExecutableDefinitions(Rule):
 CONTRACTS = [DirectivesAreDefined(), FragmentSpreadTypeExistence(), FragmentsOnCompositeTypes(), VariablesAreInputTypes(), LoneAnonymousOperation(),
              LeafFieldSelections(), FieldSelections(), ExecutableDefinitions()]
 LEMMAS = []
+
+
+# ---- 5.2.3.1 single root field: EVERY subscription operation of the document is checked
+RootErrs = z3.Function('SingleRootErrorsOf', V, V, V)          # _validate_selection_set(operation, its selection set, fragments): [] iff exactly one root field after spreading
+AllOpDefs = ForallList('operation_definition', lambda o, fr: z3.And(exact(o, 'OperationDefinitionNode'), V.oref(o) >= 0, V.is_Str(attr0(o, 'operation_type')),
+                                                                   V.is_List(RootErrs(o, fr))), param_sorts=[V])
+AllSubsOk = ForallList('subscription_has_a_single_root', lambda o, fr: z3.Implies(attr0(o, 'operation_type') == S('subscription'), VL.is_nil(V.items(RootErrs(o, fr)))), param_sorts=[V])
+
+
+class SingleRootField(Rule):
+    """5.2.3.1: every subscription operation must have exactly one root field (the per-operation count is _validate_selection_set's business)"""
+    key = Q + 'single_root_field.py::SingleRootField.validate'
+    params = ['self', 'path', 'definitions']
+    self_class = 'SingleRootField'
+
+    def _parts(self, A):
+        d = V.ditems(A['definitions'])
+        return lookup(d, S('OperationDefinition')), lookup(d, S('FragmentDefinition'))
+
+    def pre(self, A, st):
+        ops, frs = self._parts(A)
+        return self.rule_pre(A) + [('definitions', z3.And(V.is_Dict(A['definitions']), V.is_List(ops), frs != V.Missing, AllOpDefs(V.items(ops), frs)))]
+
+    def getattr_hook(self, en, st, v, attr):
+        if attr == '_validate_selection_set' and z3.eq(v, self.A['self']):
+            return [(st, PyFunc('_validate_selection_set', lambda en, s, a, kw: [(s, RootErrs(en.read(a[0], s), en.read(a[2], s)))]))]
+        return None
+
+    def _inv(self, en, st, k, st0):
+        ops, frs = self._parts(self.A)
+        errs = en.read(st.env['errors'], st) if 'errors' in st.env else V.List(VL.nil)
+        return {'errors_iff_a_bad_subscription_so_far': z3.And(V.is_List(errs), VL.is_nil(V.items(errs)) == AllSubsOk(take(V.items(ops), k), frs))}
+
+    @property
+    def loops(self):
+        return {0: LoopContract(self._inv)}
+
+    def broken(self, A):
+        ops, frs = self._parts(A)
+        return z3.Not(AllSubsOk(V.items(ops), frs))
+
+
+CONTRACTS.append(SingleRootField())
